@@ -2044,6 +2044,169 @@ def search(run: Run):
 
 
 # --------------------------------------------------------------------------------------
+# ---- fn:deep-equal on sequences of atomic items (phase 5): model = engine = specification -----------------
+DEQ_HUGE = 10 ** 400
+DEQ_EDGE = (1 << 1024) - (1 << 970)          # the least integer whose conversion to float overflows
+
+
+def deq_wire(a) -> str:
+    return 'a:' + '.'.join(format(ord(c), 'x') for c in a[1]) if a[0] == 'a' else atom_wire(a)
+
+
+def deq_text(a) -> str:
+    if a[0] == 'a':
+        return "xs:anyURI('" + a[1].replace("'", "''") + "')"
+    return atom_text(a)
+
+
+def deq_dbl(x):
+    """the xs:double nearest to a rational / integer, as an atom"""
+    try:
+        f = float(x)
+    except OverflowError:
+        return ('d', 'inf' if x > 0 else '-inf')
+    if math.isinf(f):
+        return ('d', 'inf' if f > 0 else '-inf')
+    return Dx(f)[1]
+
+
+def deq_norm(a):
+    """the constructor xs:anyURI collapses white space (whiteSpace facet): only collapsed strings as xs:anyURI values"""
+    return ('a', ' '.join(a[1].split())) if a[0] == 'a' else a
+
+
+def deq_pool(rng):
+    r = rng.random()
+    if r < 0.22:
+        return ('i', rng.choice([-1, 0, 1, 1, 2, 3, 1 << 53, (1 << 53) + 1, DEQ_HUGE, -DEQ_HUGE, DEQ_EDGE, DEQ_EDGE - 1,
+                                 rng.randint(-5, 5)]))
+    if r < 0.38:
+        return ('q', rng.choice([(10, 1), (1, 1), (25, 1), (-10, 1), (0, 0), (10000000000000000055, 20),
+                                 (1000000000000000055511151231257827, 34), (DEQ_HUGE, 0), (-DEQ_HUGE, 0),
+                                 (rng.randint(-50, 50), rng.randint(0, 2))]))
+    if r < 0.62:
+        return rng.choice([('d', 'nan'), ('d', 'nan'), ('d', 'inf'), ('d', '-inf'), ('d', '-0'), Dx(0.0)[1], Dx(1.0)[1],
+                           Dx(0.1)[1], Dx(2.5)[1], Dx(float(1 << 53))[1], Dx(1.7976931348623157e308)[1], Dx(5e-324)[1],
+                           Dx(float(rng.randint(-5, 5)))[1], Dx(rng.randint(-40, 40) / 8)[1]])
+    if r < 0.90:
+        w = rng.choice(COLL_STRINGS + ['1', '1.0', 'NaN', 'true'])
+        return deq_norm((rng.choice('sssuua'), w))
+    return ('b', rng.random() < 0.5)
+
+
+def deq_variant(a, rng):
+    """an item that is (mostly) `eq` to `a` in another type / spelling"""
+    t, v = a
+    r = rng.random()
+    if r < 0.3:
+        return a
+    if t == 'i':
+        return ('q', (v, 0)) if r < 0.6 else deq_dbl(v)
+    if t == 'q':
+        fr = Fraction(v[0], 10 ** v[1])
+        if fr.denominator == 1 and r < 0.6:
+            return ('i', fr.numerator)
+        return deq_dbl(fr)
+    if t == 'd':
+        if v == 'nan':
+            return a
+        if v in ('inf', '-inf'):
+            sg = 1 if v == 'inf' else -1
+            return rng.choice([a, ('i', sg * DEQ_HUGE), ('q', (sg * DEQ_HUGE, 0)), ('i', sg * DEQ_EDGE)])
+        if v == '-0':
+            return rng.choice([Dx(0.0)[1], ('i', 0), ('q', (0, 1))])
+        m, k = v
+        if k == 0 and r < 0.6:
+            return ('i', m)
+        return ('q', (m * 5 ** k, k))
+    if t in 'sua':
+        w = ''.join(ch.swapcase() if ch.isascii() and rng.random() < 0.5 else ch for ch in v) if r < 0.6 else v
+        return deq_norm((rng.choice('sua'), w))
+    return a
+
+
+def deq_classify(a) -> str:
+    t, v = a
+    if t == 'd':
+        return 'nan' if v == 'nan' else 'inf' if v in ('inf', '-inf') else 'dbl'
+    return {'i': 'int', 'q': 'dec', 's': 'str', 'u': 'untyped', 'a': 'uri', 'b': 'bool'}[t]
+
+
+DEQ_CORPUS = [
+    ([('d', 'nan')], [('d', 'nan')], 'cp'), ([('d', 'nan')], [('i', DEQ_HUGE)], 'cp'), ([('i', DEQ_HUGE)], [('d', 'nan')], 'cp'),
+    ([('d', 'inf')], [('i', DEQ_HUGE)], 'cp'), ([('q', (-DEQ_HUGE, 0))], [('d', '-inf')], 'cp'),
+    ([('d', 'inf')], [('i', DEQ_EDGE)], 'cp'), ([('d', 'inf')], [('i', DEQ_EDGE - 1)], 'cp'),
+    ([('d', 'nan')], [('i', DEQ_EDGE - 1)], 'cp'), ([('d', 'nan')], [('i', DEQ_EDGE)], 'cp'),
+    ([('i', 1)], [('q', (10, 1))], 'cp'), ([('q', (1, 1))], [Dx(0.1)[1]], 'cp'), ([Dx(0.1)[1]], [('q', (1, 1))], 'cp'),
+    ([('i', (1 << 53) + 1)], [Dx(float(1 << 53))[1]], 'cp'), ([('i', (1 << 53) + 1)], [('i', 1 << 53)], 'cp'),
+    ([Dx(0.0)[1]], [('d', '-0')], 'cp'), ([('u', 'a')], [('s', 'a')], 'cp'), ([('a', 'a')], [('u', 'a')], 'cp'),
+    ([('s', 'a')], [('a', 'A')], 'ci'), ([('s', 'a')], [('s', 'A')], 'cp'), ([('u', '1')], [('i', 1)], 'cp'),
+    ([('b', True)], [('i', 1)], 'cp'), ([('b', True)], [('b', True)], 'cp'), ([('b', True)], [('b', False)], 'cp'),
+    ([('s', 'true')], [('b', True)], 'cp'), ([('d', 'nan')], [('s', 'NaN')], 'cp'), ([('s', '1')], [Dx(1.0)[1]], 'cp'),
+    ([], [], 'cp'), ([('i', 1)], [], 'cp'), ([], [('i', 1)], 'cp'), ([('i', 1), ('i', 2)], [('i', 1), ('i', 2), ('i', 3)], 'cp'),
+    ([('i', 1), ('i', 2)], [('i', 2), ('i', 1)], 'cp'), ([('d', 'inf')], [('d', '-inf')], 'cp'),
+    ([('s', 'K')], [('s', 'K')], 'ci'), ([('a', 'ss')], [('s', 'ß')], 'ci'),
+]
+
+
+def deep_equal_cases(run: Run):
+    """fn:deep-equal on two sequences of atomic items (the C08 atoms and xs:anyURI): Lean model `deepEqual`,
+    Lean specification `DSpec.deepEqual` (F&O 15.3.1) and the engine, under both modelled collations, as default
+    collation or as third argument"""
+    rng = random.Random(run.seed * 104729 + 5)
+    cases = list(DEQ_CORPUS)
+    for _ in range(run.scale(1200, 12000)):
+        xs = [deq_pool(rng) for _ in range(rng.choice([0, 1, 1, 2, 2, 3, 4]))]
+        ys = [deq_variant(a, rng) for a in xs]
+        r = rng.random()
+        if ys and r < 0.12:
+            ys[rng.randrange(len(ys))] = deq_pool(rng)
+        elif ys and r < 0.17:
+            ys.pop()
+        elif r < 0.22:
+            ys.append(deq_pool(rng))
+        elif len(ys) > 1 and r < 0.26:
+            ys[0], ys[-1] = ys[-1], ys[0]
+        if rng.random() < 0.5:
+            xs, ys = ys, xs
+        cases.append((xs, ys, 'ci' if rng.random() < 0.4 else 'cp'))
+    lines = ['deq=' + (','.join(map(deq_wire, xs)) or '_') + ';' + (','.join(map(deq_wire, ys)) or '_') +
+             (' coll=ci' if cl == 'ci' else '') for xs, ys, cl in cases]
+    answers = run.driver('C08', lines)
+    canon = {'b:1': '1', 'b:0': '0'}
+    for n, ((xs, ys, cl), ans) in enumerate(zip(cases, answers)):
+        rec = parse_answer(ans)
+        if 'model' not in rec:
+            run.broken.append(f'driver:C08 deq answer {ans!r}')
+            continue
+        s1, s2 = ('(' + ', '.join(map(deq_text, q)) + ')' for q in (xs, ys))
+        forms = [(f'deep-equal({s1}, {s2})', cl),
+                 (f"deep-equal({s1}, {s2}, '{CI_URI if cl == 'ci' else CP_URI}')", 'cp' if cl == 'ci' else 'ci'),
+                 (f'deep-equal({s1}, {s2}, default-collation())', cl)]
+        pvs = ('31', '30', '20') if not run.quick or n < len(DEQ_CORPUS) else ('31', ('30', '20')[n % 2])
+        chosen = forms if not run.quick or n < len(DEQ_CORPUS) else [forms[0], forms[1 + n % 2]]
+        case = {'deep-equal': [list(map(deq_text, xs)), list(map(deq_text, ys))], 'collation': cl, 'line': lines[n]}
+        run.stats.case(case, nontrivial=bool(xs or ys))
+        run.stats.count('deep-equal:' + rec.get('b', '?'))
+        run.stats.count('deep-equal:result:' + rec['model'])
+        run.stats.count('deep-equal:collation:' + cl)
+        if rec.get('tn') == '1':
+            run.stats.count('deep-equal:input-of-fixed-F08ab')
+        if rec.get('ti') == '1':
+            run.stats.count('deep-equal:input-of-fixed-F08ac')
+        for a in xs + ys:
+            run.stats.count('deep-equal:item:' + deq_classify(a))
+        for text_, dflt in chosen:
+            for pv in pvs:
+                impl = run_impl(text_, DEFAULT_CTX, pv, dflt)
+                impl = canon.get(impl, impl)
+                if impl == rec['model'] and impl == rec['spec']:
+                    continue
+                run.disagree(Disagreement(dict(case, xpath=text_, parser=pv, default_collation=dflt), impl=impl,
+                                          model=rec['model'], spec=rec['spec'], what='deep-equal',
+                                          site='elementpath/compare.py deep_equal (sequence_deep_equal)'))
+
+
 def body(run: Run) -> int:
     run.trusted_base += ['harness/c08.py: AST printers (XPath text / Polish notation), canonicalisers',
                          'EPV/Model/SeqFunsNum.lean `rnd` / `roundSig28` / `lexDouble` / `collKey` (shared by model and specification) as '
@@ -2055,10 +2218,13 @@ def body(run: Run) -> int:
         'xs:string, xs:boolean, xs:untypedAtomic and element nodes (identified by document order, string value '
         'from the document); xs:float, dates, durations, QNames, xs:anyURI, maps, arrays are outside the model',
         'collations: the code-point collation and html-ascii-case-insensitive, as default collation of the parser '
-        'and as collation argument of index-of / distinct-values / min / max (locale and UCA collations are '
-        'outside; fn:deep-equal and xs:anyURI items are covered by the engine-only metamorphic check '
+        'and as collation argument of index-of / distinct-values / min / max / deep-equal (locale and UCA collations are '
+        'outside; xs:anyURI items of index-of / distinct-values / min / max are covered by the engine-only metamorphic check '
         'f(S, x) = f(S, x, default-collation()) = f(S, x, URI)); value comparisons (eq, lt) are generated '
         'under the code-point default only',
+        'fn:deep-equal (phase 5): two literal sequences of atomic items (the atoms above and xs:anyURI, white space '
+        'collapsed); nodes, maps, arrays and function items inside fn:deep-equal are outside (maps / arrays: C15); '
+        'the call is a top-level expression, not composed with the other constructs',
         'xs:decimal arithmetic stays within the 28 significant digits of the decimal context (the generator '
         'bounds the operands); `xs:double op integer beyond the double range` (FOAR0002 in the engine) is not generated',
         'double eq double is exact equality (elementpath applies a 1e-7 relative tolerance: C07; the generated '
@@ -2068,7 +2234,7 @@ def body(run: Run) -> int:
         'exactly; nothing is only counted',
         'every xs:double item is a binary64 value (Spec.goodItem, checked by the driver on every fn:max / fn:min '
         'argument): the type D of the model also has dyadics with more than 53 bits']
-    run.prove(['EPV.Props.C08'], ['EPV.Spec.FOSeq'])
+    run.prove(['EPV.Props.C08', 'EPV.Props.C08DeepEq'], ['EPV.Spec.FOSeq', 'EPV.Spec.FODeepEq'])
     rng = run.rng
     global QUICK_PRIMARY
     QUICK_PRIMARY = run.quick
@@ -2090,6 +2256,7 @@ def body(run: Run) -> int:
         node_probe(run)
         kernel_probe(run)
         collation_probe(run)
+        deep_equal_cases(run)
     except DriverError as e:
         run.broken.append('driver:C08 ' + str(e)[:400])
     return run.finish('proof', shrink=make_shrink(run), search=search)
